@@ -10,7 +10,7 @@ CLAIMED = {
  "C01": dict(
    technique="Lean 4 theorems apply_valid (whatever apply returns for a valid document and valid payload is valid, all eight step kinds) and apply_no_internal (a step with a well-formed payload never ends in the internal-error outcome, no hypothesis on positions) over the executable model of Step.apply; exact differential correspondence of Step.apply incl. JSON-decoded, ill-formed and unordered steps; check() + independent spec validator as oracle",
    text="27 kernel-checked theorems (Props/C01.lean; Proofs/ReplaceValid, StepValid, NoInternal, MarkupSuccess, MarkSuccess): validity of every result, absence of the internal-error outcome under the decidable payload condition StepWF (each hypothesis shown necessary by an example reproduced on the real code), and success characterisations (node-markup steps apply iff the parent allows the marks; range mark steps always apply under TextLoop). The model is tied to the code on generated (schema, document, step) cases every run; any non-ValueError exception for in-document positions is a violation.",
-   note=T + "Guards: payload validity (`openValid`), `TextStable`/`TextLoop` for mark steps (counterexample schema `text?` evaluated in model and code), `StepWF` (slice open depths within its spines, insert within the slice). For the bundled schema family the schema-level guards are themselves theorems: the schemas are regenerated as Lean data from the running library on every run and the guards evaluated by the kernel (lean/Gen, lean/Family: closed corollaries without schema hypotheses).",
+   note=T + "Guards: payload validity (`openValid`), `TextStable`/`TextLoop` for mark steps (counterexample schema `text?` evaluated in model and code), `StepWF` (slice open depths within its spines, insert within the slice). Open finding C01-insert-inside-text (genuine, upstream too): a replace-around step that inserts inside a text of its slice can return a silently invalid document; apply_valid's payload condition (the slice with the gap content in place is valid) excludes exactly these steps. For the bundled schema family the schema-level guards are themselves theorems: the schemas are regenerated as Lean data from the running library on every run and the guards evaluated by the kernel (lean/Gen, lean/Family: closed corollaries without schema hypotheses).",
    design="§5 C01"),
  "C02": dict(
    technique="Lean 4 theorems: replace = token splice, slice = token range with open depths, size arithmetic, normal form, token injectivity, re-insertion SUCCEEDS and is the identity (reinsert_succeeds); the Fragment constructors and copy-on-write operations (from_array, from_, append, cut, cut_by_index, replace_child, add_to_start/end, eq) modelled with the stored size, so that a stale cache is representable, and proved at token level — over structural-recursion models; exact differential correspondence incl. ranges that end before they start, unjoined and wrongly-sized fragments",
@@ -33,9 +33,9 @@ CLAIMED = {
    note=T + "Python's json/str encoding is modelled as the identity on JSON data. 'Does not alias live attribute objects' is object identity, outside a pure model: decided by the mutation probe only.",
    design="§5 C05"),
  "C06": dict(
-   technique="Lean 4 theorems compile_accepts / compile_live: for EVERY expression the automaton produced by the model of the real compiler (parser AST, nfa, null_from, dfa, BFS numbering) accepts exactly the expression's language and keeps exactly the extendable prefixes alive, plus compile_deadEnd; the model is tied exactly to the real compiler (AST, NFA, closures, automaton, accept/reject) on every generated expression; additionally a verified certificate checker re-proves equivalence by the kernel for the bundled expressions against the automata dumped from the running code (regenerated lean/Gen/DfaCerts.lean)",
+   technique="Lean 4 theorems compile_accepts / compile_live: for EVERY expression the automaton produced by the model of the real compiler (parser AST, nfa, null_from, dfa, BFS numbering) accepts exactly the expression's language and keeps exactly the extendable prefixes alive; the dead-end rule stated on the regular expression itself (DeadEndSpec; compile_deadEnd_iff_spec); parse_agrees (the code's parser reads every plain-number expression as the spec reader does); schema construction accepts exactly the well-formed, dead-end-free specs (buildSchema_accepts_iff_spec) and refuses with the first failing check in a proved order (buildSchema_first_error); the model is tied exactly to the real compiler and constructor (AST, NFA, closures, automaton, accept / kind of refusal) on every generated expression and spec; additionally a verified certificate checker re-proves equivalence by the kernel for the bundled expressions against the automata dumped from the running code (regenerated lean/Gen/DfaCerts.lean), and buildSchema spec = the real constructor's output is kernel-checked for every family schema (lean/Gen/SchemaBuilds)",
    text="{n} kernel-checked theorems (Props/C06.lean; Proofs/Compile*.lean, Proofs/Regex.lean, Proofs/SpecParse.lean; semantics = Mathlib RegularExpression.matches') for all expressions and sequences of unbounded length, plus ~50 regenerated certificate theorems per run; schema construction (buildSchema) accepts exactly the well-formed, live specs and its automata accept the specified languages. The proof of the general theorem exposed two defects of the pinned code (`{0,}` loop on a shared node; local dead-end check), both repaired.",
-   note=T + "The grammar reader specParse (60 lines, total) is the specification of 'the expression read as a regular expression'; parse_agrees proves that the model of the code's parser reads every expression with plain numbers exactly as specParse does (PlainNumbers: what Python's int() accepts beyond ASCII digits is tied, not proved). For the bundled schema family the schema-level guards are themselves theorems: the schemas are regenerated as Lean data from the running library on every run and the guards evaluated by the kernel (lean/Gen, lean/Family: closed corollaries without schema hypotheses).",
+   note=T + "The grammar reader specParse (60 lines, total) is the specification of 'the expression read as a regular expression'; PlainNumbers (what Python's int() accepts beyond ASCII digits) is tied, not proved. The spec-level dead-end search is proved correct whenever it answers and guaranteed to answer within an exponential bound (reachFuel).",
    design="§5 C06"),
  "C07": dict(
    technique="Lean 4 theorems: valid_content / check / can_replace / can_replace_with / can_append / create_checked equal the definition of validity over the spliced child sequence; node-level tables of a compiled schema follow from the spec (compileSchema); exact correspondence of all predicates, of create_checked and of schema construction field by field",
@@ -43,8 +43,8 @@ CLAIMED = {
    note=T + "The automaton is an input here; its agreement with the content expression is C06's subject. For the bundled schema family the schema-level guards are themselves theorems: the schemas are regenerated as Lean data from the running library on every run and the guards evaluated by the kernel (lean/Gen, lean/Family: closed corollaries without schema hypotheses).",
    design="§5 C07"),
  "C08": dict(
-   technique="Lean 4 theorems over an executable model of StepMap/Mapping (prefix-sum rule, monotonicity, deletion flags, recover, for_each, touches, inversion, composition under slice/append/invert, mirror round trip for palindrome chains of any length) + exact correspondence of every map/mapping operation + copy-independence oracle",
-   text="23 kernel-checked theorems (Props/C08.lean) for maps with any number of ranges of any size, both orientations and sides; exhaustive small scope in the thorough tier.",
+   technique="Lean 4 theorems over an executable model of StepMap/Mapping (prefix-sum rule, monotonicity, deletion flags, recover, for_each, touches, inversion; COMPOSITION laws of append_map / append_mapping / append_mapping_inverted / invert for map and map_result on both sides; the mirror jump; slices with both bounds; inverse round trips of whole mappings; functional mirror tables preserved by every constructor, first-match semantics otherwise) + exact correspondence of every map/mapping operation on builder sequences incl. deliberately double-registered tables + copy-independence oracle",
+   text="{n} kernel-checked theorems (Props/C08.lean; Proofs/Map, MapMirror, MapAlgebra, MapCompose, MirrorTable) for maps with any number of ranges of any size, both orientations and sides; exhaustive small scope in the thorough tier.",
    note=T + "Guards: WF (sorted, non-overlapping) for the rule; StrictWF (a position between ranges) for for_each/map agreement and mirror round trips, with counterexample theorems showing the guard is needed.",
    design="§5 C08"),
  "C09": dict(
@@ -58,9 +58,9 @@ CLAIMED = {
    note=T + "Largest trusted piece: the syntactic, intra-procedural escape analysis and its reviewed-site table; mutation through aliases made in another function, setattr or C extensions is found by the snapshot search only.",
    design="§5 C10"),
  "C11": dict(
-   technique="Lean 4 theorems over an executable model of replace_step incl. the Fitter as a state machine, fits_trivially, delete_range, replace_range, replace_range_with and close_fragment: the emitted step starts at `from`, extends the range only over close tokens, inserts only an in-order subsequence of the requested text (content preservation for every fitted replace step, delete_range and replace_range as wholes); TERMINATION of the fitting loop characterised exactly (fitLoop_outOfFuel_exact); loop invariants inStep and coherent (frontier matches = automaton states after the placed children) proved; the emitted step is WELL-FORMED (fit_emits_wf) and, for deletions, a VALID PAYLOAD (delete_emits_valid_payload); TOTALITY proved for deletions and closed slices of leaf/text nodes; exact correspondence of the emitted step with the real replace_step / delete_range / replace_range on every generated case, guards and invariants evaluated on every request and after every loop iteration; totality for other slices by search over the bundled family",
-   text="{n} kernel-checked theorems (Props/C11.lean; Proofs/Fitter, FitterText, RangeOps, ReplaceRange, Respects, FitMeasure, FitTerm, FitLoop, FitTotal, FitDelete, FitInline, FillOrder, FitInv, FitInStep, FitCoherent, FitValid). The Fitter model agrees with the real fitter on >10^5 generated requests per thorough run.",
-   note=T + "fitter_respects is partial for replace-around steps (one conjunct stays a monitored hypothesis); 'never raises' and payload validity for slices that get opened are not proved (groundwork lemmas; open finding C11-fitter-partial-node: clipboard-style slices) and are decided by search; a divergence example outside the bundled family is proved in the model and reproduced on the real code in every run; termination of the real loops by a per-call alarm. For the bundled schema family the schema-level guards are themselves theorems: the schemas are regenerated as Lean data from the running library on every run and the guards evaluated by the kernel (lean/Gen, lean/Family: closed corollaries without schema hypotheses).",
+   technique="Lean 4 theorems over an executable model of replace_step incl. the Fitter as a state machine, fits_trivially, delete_range, replace_range, replace_range_with and close_fragment: the emitted step starts at `from`, extends the range only over close tokens, inserts only an in-order subsequence of the requested text (content preservation for every fitted replace step, delete_range and replace_range as wholes); TERMINATION of the fitting loop characterised exactly (fitLoop_outOfFuel_exact); loop invariants inStep and coherent (frontier matches = automaton states after the placed children) proved; the emitted step is WELL-FORMED (fit_emits_wf) and, for deletions, a VALID PAYLOAD (delete_emits_valid_payload); TOTALITY proved for deletions and closed slices of leaf/text nodes; for DELETIONS the property's second sentence is proved end to end on the returned document (delete_valid, deleteRange_valid: valid, everything outside the range kept, exactly the text inside removed), for inline insertions and arbitrary valid slices when the answer is a plain replace step (…_valid_partial: one residual for replace-around answers); exact correspondence of the emitted step with the real replace_step / delete_range / replace_range on every generated case, guards and invariants evaluated on every request and after every loop iteration; totality for other slices by search over the bundled family",
+   text="{n} kernel-checked theorems (Props/C11.lean; Proofs/Fitter, FitterText, RangeOps, ReplaceRange, Respects, FitMeasure, FitTerm, FitLoop, FitTotal, FitDelete, FitInline, FillOrder, FitInv, FitInStep, FitCoherent, FitValid, FitPayload, FitAround, FitTail, InsertAtValid). The Fitter model agrees with the real fitter on >10^5 generated requests per thorough run.",
+   note=T + "fitter_respects is partial for replace-around steps except for deletions; 'never raises' for slices that get opened and payload validity without the (decidable, always observed true) run hypothesis fitEndInv are not proved (open finding C11-fitter-partial-node: clipboard-style slices) and are decided by search; success of applying an emitted step is not a theorem (the tie applies every emitted step); a divergence example outside the bundled family is proved in the model and reproduced on the real code in every run; termination of the real loops by a per-call alarm. For the bundled schema family the schema-level guards are themselves theorems: the schemas are regenerated as Lean data from the running library on every run and the guards evaluated by the kernel (lean/Gen, lean/Family: closed corollaries without schema hypotheses).",
    design="§5 C11"),
  "C12": dict(
    technique="Lean 4 theorems over executable models of the four builders (lift, wrap, split, join) and all helpers (can_split, can_join, join_point, lift_target, find_wrapping, insert_point, drop_point, can_change_type): every built step is structural and, if it applies, preserves the text/leaf sequence exactly; returned positions/depths are in range; the helpers never raise on valid documents and in-range, aligned input; AN APPROVED EDIT SUCCEEDS for split, join, join_point, wrap, lift, insert_point (incl. inside text and marked nodes at top level), drop_point (closed slices, first pass), can_change_type → set_node_markup, each under decidable guards found by the proofs, with counterexamples; exact correspondence of every built step, every helper answer and the guards",
@@ -93,13 +93,13 @@ CLAIMED = {
    note=T + "Success is not proved for replace-around steps whose slice is open on a side with a partner in the gap, and guard-free for mark steps (decided by search there); in-gap partners are overlapping in the property's sense; open finding C17-parent-retyped (the guard ParentStable is necessary).",
    design="§5 C17"),
  "C18": dict(
-   technique="Lean 4 theorems: a step whose range lies within an isolating node leaves everything outside untouched; covered_depths, delete_range's widened range, lift_target and can_split never cross an isolating ancestor (over executable models tied exactly); exact correspondence of Slice.max_open, the emitted steps and the helpers; literal token oracle",
-   text="14 kernel-checked theorems (Props/C18.lean; Proofs/Structure, RangeOps).",
+   technique="Lean 4 theorems: a step whose range lies within an isolating node leaves everything outside untouched; covered_depths, delete_range's widened range, replace_range's requests, lift_target and can_split never cross an isolating ancestor; the editor-level flows — the library's own block_range of a selection inside the node lies inside it (blockRange_inside_isolating), and lift / wrap / split / set_node_markup performed on it leave the outside unchanged and the node closed (lift_of_selection_inside, …; set_block_type partial) — over executable models tied exactly; exact correspondence of Slice.max_open, the emitted steps and the helpers; literal token oracle incl. the lift of a selection inside",
+   text="{n} kernel-checked theorems (Props/C18.lean; Proofs/Structure, RangeOps, ReplaceRange, IsoFlows).",
    note=T + "Open findings (upstream): the Fitter splits an isolating node when content cannot be placed; insert_point walks out of it; fitter-partial-node.",
    design="§5 C18"),
  "C19": dict(
-   technique="Lean 4 theorems for both directions and their composition: escaping is lossless; context expressions match exactly the declarative reading; the WHOLE PARSE is modelled (DOM walk over an abstract DOM with an oracle for selectors and callables, whitespace rewrites, normalize_list, marks, placement core) with proved termination — parse_total, parse_valid, parse_no_internal for every DOM and oracle; and the ROUND TRIP: for a document satisfying the decidable predicate rtOk (valid, whitespace-normal, attributes carried by the rules), parsing the serializer's output gives back the document (roundtrip), with the oracle filled in from the rule table; exact ties: serializer output, matches_context, schema_rules order, the whole parse and the whole round trip (HTML, abstract DOM, result) against the real code",
-   text="{n} kernel-checked theorems (Props/C19.lean; Proofs/Dom, FromDom, Placement*, DomWalk, DomWalkSafe, PlacementNoInternal, RoundTrip*).",
+   technique="Lean 4 theorems for both directions and their composition: escaping is lossless; context expressions match exactly the declarative reading; the WHOLE PARSE is modelled (DOM walk over an abstract DOM with an oracle for selectors and callables, whitespace rewrites, normalize_list, marks, placement core) with proved termination — parse_total, parse_valid, parse_no_internal for every DOM and oracle; and the ROUND TRIP: for a document satisfying the decidable predicate rtOk (valid, whitespace-normal, attributes carried by the rules), parsing the serializer's output gives back the document (roundtrip), with the oracle filled in from the rule table; for the bundled basic, list and marks-on-doc schemas the rule and toDOM tables are regenerated as Lean data from the running library and the schema part of rtOk is kernel-checked, leaving only the per-document part (roundtrip_basic, roundtrip_list; whole-document examples through the theorem); exact ties: serializer output, matches_context, schema_rules order, the whole parse and the whole round trip (HTML, abstract DOM, result) against the real code",
+   text="{n} kernel-checked theorems (Props/C19.lean; Proofs/Dom, FromDom, Placement*, DomWalk, DomWalkSafe, PlacementNoInternal, RoundTrip*) plus the closed round-trip corollaries in lean/Family/C19RoundTrip.lean.",
    note=T + "Oracle boundary (NOT modelled, answers recorded from the real run and fed to the model): lxml's HTML tokenizer, CSS selector matching, get_attrs callables, parse_styles' regex, clear_mark callables; their termination and crash-freedom are decided by search with a per-call alarm. For the round trip the oracle is computed by the model itself from the rule table (restricted rule forms of the bundled schemas). parse_valid needs Det, TextStable, LeafOk (counterexample schemas recorded). For the bundled schema family the schema-level guards are themselves theorems: the schemas are regenerated as Lean data from the running library on every run and the guards evaluated by the kernel (lean/Gen, lean/Family: closed corollaries without schema hypotheses).",
    design="§5 C19"),
  "C20": dict(
@@ -152,11 +152,11 @@ def main():
             "name": "lean-proof+correspondence",
             "path": "/verif/check",
             "serves_properties": [c["property_id"] for c in checks],
-            "kind_free_text": "Lean 4 theorems about a hand-written executable model (lean/PM, lean/Props) + differential correspondence of the model with the real Python code through a JSON-lines driver (lean/Driver) + Python property oracles as failing-input search (harness/)",
+            "kind_free_text": "Lean 4 theorems about a hand-written executable model (lean/PM, lean/Props) + Lean data regenerated from the running library on every run with kernel-checked facts about it (lean/Gen: automaton certificates, mutation-site table, the bundled schema family, its parsers and toDOM tables; lean/Family: closed corollaries) + differential correspondence of the model with the real Python code through a JSON-lines driver (lean/Driver) + Python property oracles as failing-input search (harness/)",
         }],
         "checks": checks,
         "not_applicable": na,
-        "notes": "See DESIGN.md. Fix commits in /repo (37) and the open findings are recorded in KNOWN_FINDINGS.jsonl; an open finding matches a violation only if its class predicate (harness/findings.py) holds and the tree under check behaves on that input exactly as the frozen copy of the library under /verif/reference (harness/reference.py). Seeded changes used to test the checks are under /verif/seeded (DESIGN.md §9).",
+        "notes": "See DESIGN.md. Fix commits in /repo (37) and the open findings (16 entries) are recorded in KNOWN_FINDINGS.jsonl; an open finding matches a violation only if its class predicate (harness/findings.py) holds and the tree under check behaves on that input exactly as the frozen copy of the library under /verif/reference (harness/reference.py). Seeded changes used to test the checks are under /verif/seeded (DESIGN.md §9).",
     }
     json.dump(m, open(os.path.join(V, "MANIFEST.json"), "w"), indent=1)
     print("claimed", [c["property_id"] for c in checks])
